@@ -1,6 +1,7 @@
 package main
 
 import (
+	"encoding/json"
 	"flag"
 	"fmt"
 	"os"
@@ -28,6 +29,7 @@ func main() {
 	dump := flag.String("dump", "", "debug: dump guards/calls of a function, e.g. node.commonValidation0 or stake.(*StakeCtrler).ValidateTrx")
 	explain := flag.String("explain", "", "re-derive the obligation recorded in a violation file")
 	noEvidence := flag.Bool("noevidence", false, "do not write evidence (used by the sensitivity corpus on scratch copies)")
+	describe := flag.Bool("describe", false, "with -noevidence: print each property's clause text (explanation / not covered) as JSON lines")
 	list := flag.Bool("list", false, "with -noevidence: print every obligation, not only the bad ones")
 	flag.Parse()
 
@@ -109,6 +111,10 @@ func main() {
 		}
 		var code int
 		if *noEvidence {
+			if *describe {
+				bz, _ := json.Marshal(map[string]string{"id": id, "explanation": r.Explanation, "not_covered": r.NotCovered})
+				fmt.Printf("DESCRIBE %s\n", bz)
+			}
 			if *list {
 				for _, o := range r.Obs {
 					fmt.Printf("OB %s %s: %s [%s]\n", o.Status, o.Key, strings.ReplaceAll(o.Detail, "\n", " "), strings.Join(o.Sites, ", "))
